@@ -7,8 +7,8 @@ use crate::util::*;
 use duckscript::parser;
 use serde_json::{json, Value};
 
-pub const SIGMA: [&str; 15] = [
-    "\r",
+pub const SIGMA: [&str; 16] = [
+    "\u{a0}", "\r",
     "a", "n", " ", "\"", "\\", "#", "=", ":", "$", "{", "%", "\t", "\n", "é",
 ];
 
@@ -25,13 +25,16 @@ fn all_styles() -> Vec<Style> {
             for lead in LEADS {
                 for trail in TRAILS {
                     for eq in 0..4u8 {
-                        v.push(Style {
-                            quote_optional: q,
-                            sep,
-                            lead,
-                            trail,
-                            eq,
-                        });
+                        for raw_tab in [false, true] {
+                            v.push(Style {
+                                quote_optional: q,
+                                sep,
+                                lead,
+                                trail,
+                                eq,
+                                raw_tab,
+                            });
+                        }
                     }
                 }
             }
@@ -64,6 +67,9 @@ fn is_dup_style(i: &Instr, st: &Style) -> bool {
     if st.eq != 0 && i.output.is_none() {
         return true;
     }
+    if st.raw_tab && !(has_args && i.args.iter().any(|a| a.contains('\t'))) {
+        return true;
+    }
     false
 }
 
@@ -86,7 +92,7 @@ fn expected(i: &Instr) -> PI {
 
 fn case_json(i: &Instr, st: &Style, text: &str) -> Value {
     json!({"kind": "line", "label": i.label, "output": i.output, "command": i.command, "args": i.args,
-        "style": {"quote_optional": st.quote_optional, "sep": st.sep, "lead": st.lead, "trail": st.trail, "eq": st.eq},
+        "style": {"quote_optional": st.quote_optional, "sep": st.sep, "lead": st.lead, "trail": st.trail, "eq": st.eq, "raw_tab": st.raw_tab},
         "text": text})
 }
 
@@ -204,6 +210,7 @@ pub fn worker(w: &mut Worker) {
         vec!["${v}", "%{v}"],
         vec!["\\${v}"],
         vec!["é ", " é"],
+        vec!["a\u{3000}b", "\u{a0}", "x\ty"],
         vec![":", "a:b"],
         vec!["a=b", "\"a b\""],
         vec!["", "", ""],
@@ -249,18 +256,21 @@ pub fn worker(w: &mut Worker) {
             for q in [false, true] {
                 for sep in [1usize, 3] {
                     for trail in trails {
-                        let st = Style {
-                            quote_optional: q,
-                            sep,
-                            lead: "",
-                            trail,
-                            eq: if sep == 1 || i.output.is_none() { 0 } else { 1 },
-                        };
-                        if is_dup_style(&i, &st) {
-                            continue;
-                        }
-                        if w.take() {
-                            check_line(w, &i, &st);
+                        for raw_tab in [false, true] {
+                            let st = Style {
+                                quote_optional: q,
+                                sep,
+                                lead: "",
+                                trail,
+                                eq: if sep == 1 || i.output.is_none() { 0 } else { 1 },
+                                raw_tab,
+                            };
+                            if is_dup_style(&i, &st) {
+                                continue;
+                            }
+                            if w.take() {
+                                check_line(w, &i, &st);
+                            }
                         }
                     }
                 }
@@ -305,6 +315,7 @@ pub fn worker(w: &mut Worker) {
             lead: "  ",
             trail: " # c",
             eq: 1,
+            raw_tab: false,
         };
         vec![
             ("".to_string(), PI::Empty),
@@ -388,7 +399,7 @@ pub fn crash_sig(_case: &Value, kind: &str) -> String {
     kind.to_string()
 }
 
-pub const RULE: &str = "enumeration (no duplicates by construction): A) every instruction shape (label x output x command, 27) x every rendering style (quote-when-optional, 1|3 separator spaces, 3 leads, 6 trails incl. comments, 4 '=' spacings) x 15 argument lists; B) every argument string up to the length bound over the 15-character alphabet {a n SP \" \\ # = : $ { % TAB LF CR e-acute}, as 1, 2 and 3 arguments, x 3 shapes x 16 styles; C) every script of up to n lines from a pool of 12 lines x LF/CRLF x final line break. Oracle: parse_text(render(i)) == i. A case is non-trivial when a label or output is present or an argument needs quoting or escaping; states = distinct outcome classes (shape, argument count, character classes per argument), transitions = parse_text calls";
+pub const RULE: &str = "enumeration (no duplicates by construction): A) every instruction shape (label x output x command, 27) x every rendering style (quote-when-optional, 1|3 separator spaces, 3 leads, 6 trails incl. comments, 4 '=' spacings) x 15 argument lists; B) every argument string up to the length bound over the 16-character alphabet {a n SP \" \\ # = : $ { % TAB LF CR NBSP e-acute}; a TAB inside an argument is written both as \\t and raw, as 1, 2 and 3 arguments, x 3 shapes x 16 styles; C) every script of up to n lines from a pool of 12 lines x LF/CRLF x final line break. Oracle: parse_text(render(i)) == i. A case is non-trivial when a label or output is present or an argument needs quoting or escaping; states = distinct outcome classes (shape, argument count, character classes per argument), transitions = parse_text calls";
 pub const ASSUMPTIONS: &[&str] = &["characters outside the alphabet behave like 'a' or 'e-acute' (the scanner has no other special characters)", "names are restricted to the listed labels/outputs/commands"];
 pub const EXHAUSTIVE: bool = true;
 pub const WALL_CAP_S: (u64, u64) = (50, 1500);
